@@ -357,11 +357,12 @@ class ReplaceIf(ast.NodeTransformer):
         if (self.inCall):
             raise TranspilationException('Ternary "if" inside a call not supported')
             
-        """Transforms Python ternary if-expressions into VerilogIf"""
+        """Transforms Python ternary if-expressions into the Verilog ?: operator
+        (a VerilogIf is a statement, it can not appear inside an expression)"""
         condition = self.visit(node.test)
-        positive = [self.visit(node.body)]  # Wrap in list to match VerilogIf structure
-        negative = [self.visit(node.orelse)]
-        return VerilogIf(condition, positive, negative)
+        positive = self.visit(node.body)
+        negative = self.visit(node.orelse)
+        return VerilogTernaryConditionalOperator(condition, positive, negative)
 
 class ReplaceMatch(ast.NodeTransformer):
     """Transforms Python match/case into VerilogCase."""
@@ -1142,7 +1143,8 @@ class VerilogTernaryConditionalOperator(ast.AST):
         self._fields = tuple(['condition', 'positive', 'negative'])
 
     def toVerilog(self):
-        return '({}) ? {} : {}'.format(Python2VerilogTranspiler.toVerilog(self.condition),
+        # the whole expression is parenthesised, ?: binds weaker than any operator around it
+        return '(({}) ? {} : {})'.format(Python2VerilogTranspiler.toVerilog(self.condition),
             Python2VerilogTranspiler.toVerilog(self.positive),
             Python2VerilogTranspiler.toVerilog(self.negative))
 
